@@ -8,6 +8,7 @@ import (
 	"encoding/json"
 	"fmt"
 	"os"
+	"reflect"
 	"strconv"
 	"strings"
 	"sync"
@@ -30,6 +31,8 @@ func main() {
 		progress()
 	case "stats-sched":
 		statsSched(os.Args[2:])
+	case "stats-sched-all":
+		statsSchedAll(os.Args[2:])
 	case "stats-stress":
 		statsStress(os.Args[2:])
 	case "emit-sched":
@@ -40,6 +43,8 @@ func main() {
 		emitMulti(os.Args[2:])
 	case "emit-fresh":
 		emitFresh(os.Args[2:])
+	case "emit-from":
+		emitFrom(os.Args[2:])
 	case "emit-closed":
 		emitClosed(os.Args[2:])
 	default:
@@ -140,6 +145,90 @@ func statsSched(args []string) {
 			return fmt.Sprintf("dumps=%s residue=%d", strings.Join(parts, ","), st.MatchedPairs)
 		}
 	}, maxRuns, func(steps []sched.Step, obs string, err error) bool {
+		o := schedOut{Steps: steps, Obs: obs}
+		if err != nil {
+			o.Err = err.Error()
+		}
+		enc.Encode(o)
+		return true
+	})
+	fmt.Fprintf(w, "{\"runs\":%d,\"complete\":%v}\n", runs, complete)
+}
+
+// stats-sched-all <bursts> <dumps>: one goroutine calls EVERY Inc* method of AppStats (and UpdateProcessedBytes) in a
+// burst, <bursts> times with a scheduling point between bursts; another calls DumpStats <dumps> times (its reset steps are
+// scheduling points).  For every counter that a dump resets, dumps + residue must equal the increments, in every schedule.
+func statsSchedAll(args []string) {
+	per, nd := atoi(args[0]), atoi(args[1])
+	incAll := func(st *api.AppStats) {
+		v := reflect.ValueOf(st)
+		for i := 0; i < v.NumMethod(); i++ {
+			m := v.Type().Method(i)
+			if strings.HasPrefix(m.Name, "Inc") && m.Type.NumIn() == 1 {
+				v.Method(i).Call(nil)
+			}
+		}
+		st.UpdateProcessedBytes(1)
+	}
+	var fields []string
+	t := reflect.TypeOf(api.AppStats{})
+	for i := 0; i < t.NumField(); i++ {
+		if t.Field(i).Type.Kind() == reflect.Uint64 {
+			fields = append(fields, t.Field(i).Name)
+		}
+	}
+	get := func(st *api.AppStats, f string) uint64 { return reflect.ValueOf(st).Elem().FieldByName(f).Uint() }
+	ref := &api.AppStats{}
+	for k := 0; k < per; k++ {
+		incAll(ref)
+	}
+	probe := &api.AppStats{}
+	incAll(probe)
+	probe.DumpStats()
+	var counted []string // the fields a dump resets (a gauge such as the live streams is reported, not reset)
+	for _, f := range fields {
+		if get(probe, f) == 0 && get(ref, f) != 0 {
+			counted = append(counted, f)
+		}
+	}
+	names := []string{"inc", "dump"}
+	w := bufio.NewWriter(os.Stdout)
+	defer w.Flush()
+	enc := json.NewEncoder(w)
+	runs, complete := explore(names, func() (map[string]func(), func() string) {
+		st := &api.AppStats{}
+		var dumps []*api.AppStats
+		bodies := map[string]func(){}
+		bodies["inc"] = func() {
+			for k := 0; k < per; k++ {
+				if k > 0 {
+					api.VerifYieldPoint("inc.call")
+				}
+				incAll(st)
+			}
+		}
+		bodies["dump"] = func() {
+			for k := 0; k < nd; k++ {
+				dumps = append(dumps, st.DumpStats())
+			}
+		}
+		return bodies, func() string {
+			var bad []string
+			for _, f := range counted {
+				sum := get(st, f)
+				for _, d := range dumps {
+					sum += get(d, f)
+				}
+				if sum != get(ref, f) {
+					bad = append(bad, fmt.Sprintf("%s: dumps+residue=%d increments=%d", f, sum, get(ref, f)))
+				}
+			}
+			if len(bad) > 0 {
+				return "bad " + strings.Join(bad, "; ")
+			}
+			return "ok " + strings.Join(counted, ",")
+		}
+	}, 200000, func(steps []sched.Step, obs string, err error) bool {
 		o := schedOut{Steps: steps, Obs: obs}
 		if err != nil {
 			o.Err = err.Error()
@@ -322,6 +411,50 @@ func emitFresh(args []string) {
 		}
 	}
 	fmt.Printf("{\"trials\":%d,\"goroutines\":%d,\"bad\":%d,\"first_bad\":%q}\n", trials, g, bad, firstBad)
+}
+
+// emit-from <emits> <start> <start> ...: Emit called <emits> times on statistics whose matched-pairs counter already
+// stands at <start> (a long-running process: around 2^31, 2^32, 2^53, 2^63 and the 64-bit wrap): the counter must stand at
+// start + emits (mod 2^64, the counter's own width) afterwards and the items carry the indices 0..emits-1.
+func emitFrom(args []string) {
+	n := atoi(args[0])
+	type row struct {
+		Start string `json:"start"`
+		End   string `json:"end"`
+		Want  string `json:"want"`
+		Idx   bool   `json:"indices_ok"`
+	}
+	var rows []row
+	bad := 0
+	for _, a := range args[1:] {
+		m0, err := strconv.ParseUint(a, 10, 64)
+		if err != nil {
+			continue
+		}
+		stream := &mock.Stream{PcapId: "s"}
+		stats := &api.AppStats{MatchedPairs: m0}
+		ch := make(chan *api.OutputChannelItem, n+1)
+		em := &api.Emitting{AppStats: stats, Stream: stream, OutputChannel: ch}
+		for k := 0; k < n; k++ {
+			em.Emit(&api.OutputChannelItem{})
+		}
+		close(ch)
+		idxOK, k := true, int64(0)
+		for it := range ch {
+			if it.Index != k {
+				idxOK = false
+			}
+			k++
+		}
+		want := m0 + uint64(n)
+		r := row{a, strconv.FormatUint(stats.MatchedPairs, 10), strconv.FormatUint(want, 10), idxOK && k == int64(n)}
+		if stats.MatchedPairs != want || !r.Idx {
+			bad++
+		}
+		rows = append(rows, r)
+	}
+	b, _ := json.Marshal(map[string]interface{}{"bad": bad, "rows": rows})
+	fmt.Println(string(b))
 }
 
 // emit-closed <trials> <goroutines> <emitsEach> <capacity>: the stream reports itself closed after the first item while
